@@ -228,7 +228,7 @@ def Op.writes : Op → Option Nat
   | .new d .. | .slice d .. | .mask d .. | .take d .. | .proj d .. | .call d .. | .relabel d ..
   | .doo d .. | .concat d .. | .addrec d .. | .copy d .. => some d
   | .setitem h .. | .delitem h .. | .update h .. => some h
-  | .len .. | .shape .. | .row .. | .col .. | .iter .. | .tup .. | .addnone .. => Option.none
+  | .len .. | .shape .. | .row .. | .col .. | .iter .. | .tup .. | .apply .. | .addnone .. => Option.none
 
 theorem Heap.put_getElem? (s : Heap) (d : Nat) (t : Table) (i : Nat) (hi : i < s.length) (hd : d ≠ i) :
     (s.put d t)[i]? = s[i]? := by
